@@ -203,9 +203,14 @@ def check_warc(ctx, case, exs, results, recs, opts=(True, False)):
                      % (k, pf.get('warc-type')))
         if pb != want:
             d = next((j for j, (a, b) in enumerate(zip(pb, want)) if a != b), min(len(pb), len(want)))
-            ctx.fail('response-block-not-wire', 'response_data', case,
-                     'exchange %d: response block (%d bytes) differs from what the server sent for it (%d bytes) at offset %d'
-                     % (k, len(pb), len(want), d))
+            if e.get('dedup'):
+                ctx.fail('revisit-block-not-header', '_record_revisit', case,
+                         'exchange %d: revisit block (%d bytes) is not the header block the server sent, through its terminating '
+                         'empty line (%d bytes); first difference at offset %d' % (k, len(pb), len(want), d))
+            else:
+                ctx.fail('response-block-not-wire', 'response_data', case,
+                         'exchange %d: response block (%d bytes) differs from what the server sent for it (%d bytes) at offset %d'
+                         % (k, len(pb), len(want), d))
         if pf.get('warc-target-uri') != uri:
             ctx.fail('record-target', 'begin_response', case, 'exchange %d: response record for %r, requested %r' % (k, pf.get('warc-target-uri'), uri))
         if pf.get('warc-concurrent-to') != qf.get('warc-record-id'):
@@ -222,14 +227,18 @@ def fixed_dedup_sequences():
     shapes = [(b'HTTP/1.1 200 OK\r\nContent-Length: 11\r\n\r\n', b'hello world', b'hello world', 'length'),
               (b'HTTP/1.1 200 OK\nTransfer-Encoding: chunked\n\n', b'5;x\nhello\n0\nT: 1\n\n', b'hello', 'chunked'),
               (b'HTTP/1.1 200 OK\r\nX: a\r\n b\r\nContent-Length: 0\r\n\r\n', b'', b'', 'length'),
-              (b'HTTP/1.1 304 NM\r\nContent-Length: 5\r\n\r\n', b'', b'', 'none')]
+              (b'HTTP/1.1 304 NM\r\nContent-Length: 5\r\n\r\n', b'', b'', 'none'),
+              # whitespace-only lines inside the header block: they are not the empty line that ends it
+              (b'HTTP/1.1 200 OK\r\nX-A: 1\r\n \r\nContent-Length: 4\r\nX-B: 2\r\n\r\n', b'body', b'body', 'length'),
+              (b'HTTP/1.1 200 OK\n\t\nX-Fold: a\n \n\tb\nContent-Length: 2\n\x0b\n\n', b'ok', b'ok', 'length'),
+              (b'HTTP/1.1 200 OK\r\nTransfer-Encoding: chunked\r\n \r\r\nX: y\r\n\r\n', b'1\r\nz\r\n0\r\n\r\n', b'z', 'chunked')]
     for rep in range(6):       # 6 consecutive indices: both compressions x all three digest phases
         exs = []
         for k, (head, framed, payload, framing) in enumerate(shapes + shapes[:1]):
             m = c08._mk(head, framed, payload, code=304 if framing == 'none' else 200, framing=framing)
             exs.append({'segs': fakenet.segment(m.message, [len(head)] if rep % 2 else []), 'eof': False, 'method': 'GET',
                         'version': 'HTTP/1.1', 'path': '/p%d' % k, 'msg': m, 'surplus': b'', 'marker': b'',
-                        'dedup': k in (0, 1, 2, 3)})
+                        'dedup': k < len(shapes)})
         out.append((exs, (True, False)))
     return out
 
